@@ -11,6 +11,7 @@ package c08
 import (
 	"encoding/json"
 	"fmt"
+	"runtime/debug"
 	"sort"
 	"strings"
 
@@ -52,6 +53,9 @@ func (r evalResult) has(class string) bool {
 }
 
 func evalCase(pc pcase) (res evalResult) {
+	if pc.Real {
+		return evalReal(pc)
+	}
 	mainFiles, subFiles := pc.build()
 	in, err := expectedOf(mainFiles, subFiles)
 	if err != nil {
@@ -263,6 +267,57 @@ func (m *minimiser) minimise(pc pcase, class string) pcase {
 				i--
 			}
 		}
+		// file names: towards a.yaml, b.yaml, sub/c.yaml in this order
+		for i := range cur.Files {
+			for _, n := range []string{"templates/a.yaml", "templates/b.yaml", "templates/sub/c.yaml"} {
+				if n >= cur.Files[i].Name {
+					break
+				}
+				used := false
+				for _, f := range cur.Files {
+					used = used || f.Name == n
+				}
+				if used {
+					continue
+				}
+				c := cur.clone()
+				c.Files[i].Name = n
+				sort.Slice(c.Files, func(x, y int) bool { return c.Files[x].Name < c.Files[y].Name })
+				if try(c) {
+					changed = true
+					break
+				}
+			}
+		}
+		// all documents of one type at once (a defect about equal kinds survives only a joint replacement)
+		for _, simple := range []int{dCM, dSvc, dHook, dBlank} {
+			present := map[int]bool{}
+			for _, fs := range [][]fileSpec{cur.Files, cur.Sub} {
+				for _, f := range fs {
+					for _, t := range f.Docs {
+						present[t] = true
+					}
+				}
+			}
+			for t := simple + 1; t < nDocTypes; t++ {
+				if !present[t] {
+					continue
+				}
+				c := cur.clone()
+				for _, fs := range [][]fileSpec{c.Files, c.Sub} {
+					for _, f := range fs {
+						for i := range f.Docs {
+							if f.Docs[i] == t {
+								f.Docs[i] = simple
+							}
+						}
+					}
+				}
+				if try(c) {
+					changed = true
+				}
+			}
+		}
 		// per file: documents, options, joiners, document types
 		for _, sub := range []bool{false, true} {
 			files := func(p *pcase) []fileSpec {
@@ -299,7 +354,7 @@ func (m *minimiser) minimise(pc pcase, class string) pcase {
 					}
 				}
 				for di := range files(&cur)[fi].Docs {
-					for _, simple := range []int{dCM, dSvc, dHook} {
+					for _, simple := range []int{dCM, dSvc, dHook, dBlank} {
 						if simple >= files(&cur)[fi].Docs[di] {
 							continue // only towards simpler types: no cycles
 						}
@@ -444,6 +499,8 @@ func runPartition(c *core.Ctx) {
 		return
 	}
 	only := strings.TrimPrefix(strings.TrimPrefix(c.Only, "partition"), ":")
+	// the cases are tiny and allocation-heavy; a lazier collector halves the cost (restored on return)
+	defer debug.SetGCPercent(debug.SetGCPercent(400))
 	e := &explorer{c: c, min: &minimiser{memo: map[string]map[string]bool{}}, seen: map[string]bool{}}
 	part := func(name string, fn func()) {
 		if only == "" || only == name {
@@ -454,9 +511,9 @@ func runPartition(c *core.Ctx) {
 	}
 	thorough := c.Thorough()
 
-	full := []int{dCM, dSvc, dNS, dDep, dWidget, dHook, dHookU, dHookKU, dHookKK, dHookW, dComment, dBlank, dKeep}
+	full := []int{dCM, dSvc, dNS, dDep, dWidget, dHook, dHookU, dHookKU, dHookKK, dHookW, dComment, dBlank, dKeep, dCMTail, dHookTail}
 	if thorough {
-		full = append(full, dGadget, dHookUK, dWsBlank, dAnno)
+		full = append(full, dGadget, dHookUK, dWsBlank, dAnno, dCMKeep, dIndent)
 	}
 	r8 := []int{dCM, dSvc, dNS, dWidget, dHook, dHookU, dComment, dKeep}
 	r5 := []int{dCM, dSvc, dWidget, dHook, dHookU}
@@ -476,10 +533,11 @@ func runPartition(c *core.Ctx) {
 	// A4 (thorough): one file, 4 documents over the reduced alphabet x every separator spelling
 	if thorough {
 		part("A4", func() {
-			eachFile("templates/a.yaml", r8, 4, 4, allJoin, yesNo, yesNo, no, func(f fileSpec) {
+			r6 := []int{dCM, dSvc, dHook, dHookU, dComment, dBlank}
+			eachFile("templates/a.yaml", r6, 4, 4, allJoin, yesNo, yesNo, no, func(f fileSpec) {
 				e.do(pcase{Files: []fileSpec{f}})
 			})
-			c.Bound("partition.A4", fmt.Sprintf("1 file x 4 docs over %d document types x %d joiners per gap x lead x trail", len(r8), len(allJoin)))
+			c.Bound("partition.A4", fmt.Sprintf("1 file x 4 docs over %d document types x %d joiners per gap x lead x trail", len(r6), len(allJoin)))
 		})
 	}
 
@@ -487,7 +545,7 @@ func runPartition(c *core.Ctx) {
 	part("B", func() {
 		alpha, joins := r8, []int{jBlankLn, jCRLF}
 		if thorough {
-			alpha, joins = full, allJoin
+			alpha, joins = []int{dCM, dSvc, dNS, dDep, dWidget, dGadget, dHook, dHookU, dHookKK, dComment, dBlank, dKeep}, []int{jPlain, jCRLF, jDouble}
 		}
 		as := fileVariants("templates/a.yaml", alpha, 1, 2, joins, no, no, no)
 		for _, second := range []string{"templates/b.yaml", "templates/sub/c.yaml"} {
@@ -517,7 +575,7 @@ func runPartition(c *core.Ctx) {
 	part("C", func() {
 		alpha, joins := r5, []int{jPlain}
 		if thorough {
-			alpha, joins = r8, []int{jPlain, jCRLF}
+			alpha = r8
 		}
 		as := fileVariants("templates/a.yaml", alpha, 1, 2, joins, no, no, no)
 		bs := fileVariants("templates/b.yaml", alpha, 1, 2, joins, no, no, no)
@@ -600,6 +658,31 @@ func runPartition(c *core.Ctx) {
 			e.do(pcase{Files: []fileSpec{mk("templates/a.yaml", docs[:4]), mk("templates/b.yaml", fixed), mk("templates/sub/c.yaml", docs[4:])}})
 		})
 		c.Bound("partition.E", fmt.Sprintf("1 file x %v docs over {ConfigMap,Service}; 3 files x 14 docs (7 free over {Service,ConfigMap,Widget,hook})", lens))
+	})
+
+	// U: real install + uninstall on the simulated cluster (create / delete requests as the server saw them)
+	part("U", func() {
+		alpha := []int{dCM, dSvc, dNS, dDep, dWidget, dKeep, dHook, dHookU}
+		maxDocs := 3
+		if thorough {
+			maxDocs = 4
+		}
+		eachFile("templates/a.yaml", alpha, 1, maxDocs, []int{jPlain}, no, no, no, func(f fileSpec) {
+			e.do(pcase{Files: []fileSpec{f}, Real: true})
+		})
+		two := []int{dCM, dSvc, dDep, dWidget}
+		if thorough {
+			two = alpha
+		}
+		as := fileVariants("templates/a.yaml", two, 1, 2, []int{jPlain}, no, no, no)
+		bs := fileVariants("templates/b.yaml", two, 1, 2, []int{jPlain}, no, no, no)
+		for _, a := range as {
+			for _, b := range bs {
+				e.do(pcase{Files: []fileSpec{a, b}, Real: true})
+			}
+		}
+		e.do(pcase{Files: []fileSpec{as[0]}, Notes: true, Helpers: true, SubOn: true, SubNotes: true, Sub: []fileSpec{{Name: "templates/x.yaml", Docs: []int{dSvc}}}, Real: true})
+		c.Bound("partition.U", fmt.Sprintf("real install+uninstall: 1 file x 1..%d docs over %d types; 2 files x 1..2 docs over %d types", maxDocs, len(alpha), len(two)))
 	})
 
 	c.Count("partition_cases", e.cases)
